@@ -23,6 +23,7 @@ import json
 import os
 import random as _random
 import sys
+import threading
 import types
 import weakref
 
@@ -347,6 +348,34 @@ class _SimTime(object):
     @staticmethod
     def time():
         return W.now()
+
+
+class SimLock(object):
+    """threading.Lock as lomond sees it.  With the scenario key 'contended_lock' another (imaginary) application thread is in the
+    middle of a send - inside write(), holding the write lock - at the moment the consumer abandons the iterator: a blocking
+    acquire waits for that send to finish and succeeds, a non-blocking or timed acquire fails."""
+
+    def __init__(self):
+        self._l = threading.Lock()
+
+    def acquire(self, blocking=True, timeout=-1):
+        if W is not None and W.sc.get('contended_lock') and getattr(W, 'abandoning', False) and (not blocking or timeout >= 0):
+            W.rec({"k": "lock", "op": "try_failed"})
+            return False
+        return self._l.acquire(blocking, timeout)
+
+    def release(self):
+        self._l.release()
+
+    def locked(self):
+        return self._l.locked()
+
+    def __enter__(self):
+        self.acquire()
+        return self
+
+    def __exit__(self, *a):
+        self.release()
 
 
 class _SimEnviron(object):
@@ -739,6 +768,10 @@ def install(world):
     E.time = _SimTime
     SEL.select = _shim_select()
     WS.os = _SimOS
+    lock_ns = types.SimpleNamespace(Lock=SimLock, RLock=SimLock, Event=threading.Event, local=threading.local, current_thread=threading.current_thread)
+    S.threading = lock_ns
+    if hasattr(WS, 'threading'):
+        WS.threading = lock_ns
     F.make_masking_key = lambda: bytes(world.rng.getrandbits(8) for _ in range(4)) if not world.sc.get('mask') \
         else bytes(world.sc['mask'])
     P.random = lambda: world.next_draw()
@@ -1008,6 +1041,7 @@ def _run_scenario(sc):
             if mech is not None:
                 world.rec({"k": "abandon", "mech": mech, "at": state['idx'] - 1})
                 state['abandon'] = mech
+                world.abandoning = True
                 if mech in ('raise', 'with'):
                     raise _AppAbort()
                 if mech == 'close':
@@ -1064,6 +1098,7 @@ def _run_scenario(sc):
             except BaseException as e:
                 world.rec({"k": "escape", "exc": type(e).__name__, "msg": str(e)[:100]})
             world.end_connection()
+            world.abandoning = False
             if state['abandon'] is not None and c + 1 < nconn:
                 state['abandon'] = None
                 gc.collect()
